@@ -737,9 +737,10 @@ theorem tie_create_from_lanelet_network (n : Net) (keep : Id → Bool) (c : Bool
       have hS := found_perm n.signs hs sel.2.1 _ hnd1 m2
       have hT := found_perm n.lights ht sel.2.2 _ hnd2 m3
       cases c
-      · simp only [sameRes, Net.same, Net.cutBase, PyR.emptyNet, List.nil_append, Bool.false_eq_true, if_false]
+      · simp only [sameRes, Net.same, Net.cutBase, Bool.not_false, Bool.not_true, Bool.false_eq_true, if_false, if_true]
         exact ⟨trivial, trivial, hS, hT⟩
-      · simp only [sameRes, Net.same, Net.cutBase, Net.cleanupLaneletRefs, Net.lids, PyR.emptyNet, List.nil_append, if_true]
+      · simp only [sameRes, Net.same, Net.cutBase, Net.cleanupLaneletRefs, Net.lids, Bool.not_false, Bool.not_true,
+          Bool.false_eq_true, if_false, if_true]
         exact ⟨trivial, trivial, hS, hT⟩
     · have hB' := (Bool.not_eq_true _).mp hB
       simp only [hB', Bool.false_eq_true, if_false, Bool.not_false, if_true, sameRes]
